@@ -24,6 +24,37 @@ VALID_TREE = [
 GENES = ['g0', 'g1', 'g2', 'g3', 'g4', 'g5']
 
 
+def _sweep_stale_scratch(max_age_s=3600):
+    """the native generators write small HDF5 files named mc_native_* into the temp directory
+    (a handful per process, overwritten cyclically); remove the ones left by earlier runs"""
+    import glob
+    import os
+    import shutil
+    import tempfile
+    import time
+    now = time.time()
+    for pth in glob.glob(os.path.join(tempfile.gettempdir(), 'mc_native_*')):
+        try:
+            if now - os.path.getmtime(pth) > max_age_s:
+                shutil.rmtree(pth) if os.path.isdir(pth) else os.remove(pth)
+        except OSError:
+            pass
+
+
+_sweep_stale_scratch()
+
+
+def _quiet(qualname):
+    """the real function, with its (expected) warnings silenced"""
+    def call(**kw):
+        import warnings
+        from pyvc import native
+        with warnings.catch_warnings():
+            warnings.simplefilter('ignore')
+            return native.resolve(qualname)(**kw)
+    return call
+
+
 def make_tree(shape, level_names=None):
     """shape: nested lists describing the children counts per level, e.g. [[2, 1], [1]] = root with
     two top-level nodes; the first has two children with 2 and 1 leaves ...  Simplified here to a
@@ -192,6 +223,8 @@ def ensures_validate(ML0, Q, R, mm):
         # on a normal return every parent at which a choice is made ends with a usable gene
         f"all(ncommon({R}[{key('p')}], {Q}) >= 1 for p in {AP} if {consulted})",
         f"implies({ROOT_MULTI}, 'None' in {R} and ncommon({R}['None'], {Q}) >= 1)",
+        # no marker is invented: every gene returned is listed somewhere in the input table
+        f"all(listed({ML0}, g) for k in {R} for g in {R}[k])",
     ]
 
 
@@ -219,7 +252,7 @@ contract(
                 taxonomy_tree='MCTree', log='Opt[MCLog]', min_markers='Int'),
     returns='Dict[Name,List[Name]]',
     locals=dict(patched_with='List[Name]'),
-    native=dict(gen=_gen_validate, weight=2),
+    native=dict(gen=_gen_validate, weight=2, call=_quiet(M + 'validate_marker_lookup')),
     assumptions=[A_GRP],
     requires=VALID_TREE,
     raises={'RuntimeError': ('iff', "any(" + bad('p', 'marker_lookup', 'query_gene_names')
@@ -249,6 +282,7 @@ contract(
                                  f"(all_parents[j] is not None and {multi('all_parents[j]')})",
                                  'old(marker_lookup)', 'old(query_gene_names)', 'query_gene_names',
                                  'marker_lookup') + [
+            "all(listed(old(marker_lookup), g) for k in marker_lookup for g in marker_lookup[k])",
             # as long as no error is recorded, every consulted parent visited has a usable gene
             f"all(implies(len(error_msg) == 0, ncommon(marker_lookup[{key('all_parents[j]')}], old(query_gene_names)) >= 1) "
             f"for j in range(_i) if all_parents[j] is not None and {multi('all_parents[j]')})",
@@ -269,6 +303,7 @@ contract(
             "iff(len(patched_with) > 0, any(reverse_hier[j] in ancestors and "
             "grp(reverse_hier[j], ancestors[reverse_hier[j]]) in marker_lookup for j in range(_i)))",
             "implies(len(patched_with) == 0, mc_same(new_markers, markers))",
+            "all(listed(old(marker_lookup), g) for g in new_markers)",
             # new_markers is the pool down to the next level to visit; no earlier pool was enough
             "mc_same(new_markers, pool(taxonomy_tree, old(marker_lookup), parent[0], parent[1], markers, len(reverse_hier) - _i))",
             "all(len(query_gene_names.intersection(pool(taxonomy_tree, old(marker_lookup), parent[0], parent[1], markers, i2))) < min_markers "
@@ -336,6 +371,8 @@ contract(
             "all(implies(g in final_pool, g in marker_lookup[parent_str]) for g in query_gene_names))",
             "iff(len(query_gene_names.intersection(set(marker_lookup[parent_str]))) == 0, "
             "len(query_gene_names.intersection(final_pool)) == 0)",
+            "all(listed(old(marker_lookup), g) for g in final_pool)",
+            "all(listed(old(marker_lookup), g) for g in marker_lookup[parent_str])",
         ],
         "all_parents.reverse()": [
             "len(all_parents) == len(taxonomy_tree.all_parents)",
@@ -551,8 +588,7 @@ def _gen_create(rng, size):
 
 
 _VALIDATE_RAISES = "any(" + bad('p', 'marker_lookup', 'query_gene_names') + f" for p in {AP})"
-_UNKNOWN_ANY = ("any(g not in reference_gene_names for k in marker_lookup if " + NOT_META
-                + " for g in marker_lookup[k])")
+_UNKNOWN_ANY = "any(g not in reference_gene_names for k in marker_lookup for g in marker_lookup[k])"
 # a group that validate_marker_lookup returns untouched: not the key of a consulted parent
 _UNKNOWN_UNTOUCHED = (
     "any(g not in reference_gene_names for k in marker_lookup if " + NOT_META + " and "
@@ -565,8 +601,9 @@ contract(
     tracked=['marker_lookup', 'reference_gene_names', 'query_gene_names', 'taxonomy_tree', 'log',
              'min_markers', 'query_gene_set', 'reference_gene_set', 'final_marker_lookup',
              'missing_reference_markers', 'parent_node', 'marker_set', 'these_markers',
-             'consulted_parents', 'is_consulted', 'parent', 'parent_str', 'children',
+             'consulted_parents', 'is_consulted', 'parent', 'parent_str', 'children', 'msg',
              'written_ref', 'written_query'],
+    unexpected_exceptions='allowed',     # abstracted statements (messages, warnings) may raise
     ghost=dict(vars=dict(written_ref='Dict[Name,Arr[Int]]', written_query='Dict[Name,Arr[Int]]')),
     native=dict(gen=_gen_create, call=_call_create, env=dict(written_ref=_WR, written_query=_WQ, VL=_VL)),
     assumptions=[A_GRP, "the taxonomy_tree=None mode (no validation) is not covered: _run_mapping "
@@ -574,8 +611,9 @@ contract(
     params=dict(marker_lookup='Dict[Name,List[Name]]', reference_gene_names='List[Name]',
                 query_gene_names='List[Name]', output_cache_path='Opaque', taxonomy_tree='MCTree',
                 log='Opt[MCLog]', min_markers='Int'),
-    locals=dict(consulted_parents='Set[Name]', final_marker_lookup='Dict[Name,List[Name]]',
-                missing_reference_markers='Set[Name]', missing_query_markers='Set[Name]'),
+    locals=dict(consulted_parents='Opt[Set[Name]]', final_marker_lookup='Dict[Name,List[Name]]',
+                missing_reference_markers='Set[Name]', missing_query_markers='Set[Name]',
+                marker_set='Set[Name]'),
     requires=VALID_TREE + ["dupfree(reference_gene_names)", "dupfree(query_gene_names)"],
     raises={'RuntimeError': _VALIDATE_RAISES + " or " + _UNKNOWN_ANY},
     must_raise=[_VALIDATE_RAISES, _UNKNOWN_UNTOUCHED],
@@ -590,8 +628,182 @@ contract(
             # ... and every marker kept is known to the reference
             f"all(g in reference_gene_names for k in VL if {NOT_META} for g in VL[k])",
         ]),
-    loops={},
+    loops={
+        # 0: every member of consulted_parents is the key of a parent with more than one child
+        0: ["consulted_parents is not None",
+            "all((k == 'None' and " + ROOT_MULTI + ") or any((taxonomy_tree.all_parents[j] is not None and len(taxonomy_tree.children(taxonomy_tree.all_parents[j][0], taxonomy_tree.all_parents[j][1])) > 1) and k == "
+            + key('taxonomy_tree.all_parents[j]') + " for j in range(_i)) for k in consulted_parents)"],
+        # 1: groups visited so far (dict order is arbitrary)
+        1: ["all(k in _seen and " + NOT_META + " for k in final_marker_lookup)",
+            "all(k in final_marker_lookup for k in _seen if " + NOT_META + ")",
+            "all(kept_ok(marker_lookup[k], query_gene_names, final_marker_lookup[k]) for k in final_marker_lookup)",
+            # missing_reference_markers = the markers seen so far that the reference does not know
+            "all(g in missing_reference_markers for k in _seen if " + NOT_META
+            + " for g in marker_lookup[k] if g not in reference_gene_names)",
+            "all(g not in reference_gene_names and any(g in marker_lookup[k] for k in _seen) "
+            "for g in missing_reference_markers)"],
+    },
     inline_asserts={
         "marker_lookup = validate_marker_lookup(": ["ghost VL = marker_lookup"],
+        # what is kept for the group: its genes that are in the query, each once
+        "these_markers = list(marker_set.intersection(": [
+            "dupfree(these_markers)",
+            "all(g in marker_lookup[parent_node] and g in query_gene_names for g in these_markers)",
+            "all(g in these_markers for g in marker_lookup[parent_node] if g in query_gene_names)",
+            "kept_ok(marker_lookup[parent_node], query_gene_names, these_markers)",
+            "len(these_markers) == ncommon(marker_lookup[parent_node], query_gene_names)",
+        ],
+        # a consulted parent has a usable gene (validate_marker_lookup): the error below is dead
+        "is_consulted = ": [
+            "implies(is_consulted, ncommon(marker_lookup[parent_node], query_gene_names) >= 1)",
+        ],
+        # after the loop: nothing unknown to the reference was seen, or the error is due
+        "for parent_node in marker_lookup:": [
+            "all(k in final_marker_lookup for k in marker_lookup if " + NOT_META + ")",
+            "implies(len(missing_reference_markers) == 0, all(g in reference_gene_names "
+            "for k in marker_lookup if " + NOT_META + " for g in marker_lookup[k]))",
+        ],
+        "if len(missing_reference_markers) > 0:": [
+            "all(g in reference_gene_names for k in marker_lookup if " + NOT_META + " for g in marker_lookup[k])",
+            "all(g in reference_gene_names and g in query_gene_names "
+            "for k in final_marker_lookup for g in final_marker_lookup[k])",
+            "all(dupfree(final_marker_lookup[k]) for k in final_marker_lookup)",
+        ],
+        "write_query_markers_to_h5(": [
+            "all(k in written_ref and k in written_query for k in final_marker_lookup)",
+            "all(stored_ok(marker_lookup[k], reference_gene_names, query_gene_names, written_ref[k], "
+            "written_query[k]) for k in final_marker_lookup)",
+        ],
     },
+)
+
+
+# =====================================================================================================
+# serialize_markers  (C08.d, C15.d): the marker table reported in the output is read back from the
+# cache that was used: for a parent with >= 2 children the names of the reference genes at the
+# stored `reference` indices (in that order), [] for every other parent; one entry per parent.
+# BOUNDED (native execution only): the body is h5py / json reading, outside the symbolic subset.
+# =====================================================================================================
+def _gen_serialize(rng, size):
+    """a real cache written by create_marker_cache_from_specified_markers for a random valid case"""
+    import warnings
+    from cell_type_mapper.type_assignment.marker_cache_v2 import create_marker_cache_from_specified_markers
+    for _ in range(200):
+        g = _gen_create(rng, size)
+        g['output_cache_path'] = g['output_cache_path'].replace('mc_native_create_', 'mc_native_ser_')
+        try:
+            with warnings.catch_warnings():
+                warnings.simplefilter('ignore')
+                create_marker_cache_from_specified_markers(**g)
+        except RuntimeError:
+            continue
+        return dict(marker_cache_path=g['output_cache_path'], taxonomy_tree=g['taxonomy_tree'])
+    raise RuntimeError("no valid case generated")
+
+
+_NAMES_AT = "[h5_names(marker_cache_path)[i] for i in h5_ref(marker_cache_path, {k})]"
+
+contract(
+    M + 'serialize_markers',
+    properties=['C08', 'C15'],
+    mode='bounded',
+    native=dict(gen=_gen_serialize, weight=1, call=_quiet(M + 'serialize_markers'),
+                bound="random taxonomies with <= 4 levels, <= 6 nodes per level, <= 6 genes; caches "
+                      "written by the real create_marker_cache_from_specified_markers"),
+    params=dict(marker_cache_path='Opaque', taxonomy_tree='MCTree'),
+    returns='Dict[Name,List[Name]]',
+    requires=VALID_TREE,
+    ensures=[
+        f"len(result) == len({AP}) and 'None' in result",
+        f"all({key('p')} in result for p in {AP} if p is not None)",
+        f"all(result[{key('p')}] == " + _NAMES_AT.format(k=key('p')) + f" for p in {AP} if p is not None and {multi('p')})",
+        f"all(result[{key('p')}] == [] for p in {AP} if p is not None and not {multi('p')})",
+        f"result['None'] == (" + _NAMES_AT.format(k="'None'") + f" if {ROOT_MULTI} else [])",
+    ],
+)
+
+
+# =====================================================================================================
+# bounded views (native execution only; never counted as proved)
+# =====================================================================================================
+def _reference_fallback(marker_lookup, query_gene_names, taxonomy_tree, min_markers):
+    """independent reference implementation of C08.a written from the property text: the table
+    that must be returned, or None when the run must end with an error"""
+    mm = max(1, min_markers)
+    Q = set(query_gene_names)
+    out = {k: list(v) for k, v in marker_lookup.items()}
+    error = False
+    h = taxonomy_tree.hierarchy
+    for p in taxonomy_tree.all_parents:
+        kids = taxonomy_tree.children(None, None) if p is None else taxonomy_tree.children(p[0], p[1])
+        if len(kids) < 2:
+            continue                                   # a single child: no markers needed
+        if p is None:
+            if 'None' not in marker_lookup or not (set(marker_lookup['None']) & Q):
+                error = True
+            continue
+        k = f'{p[0]}/{p[1]}'
+        own = set(marker_lookup.get(k, []))
+        if len(own & Q) >= mm:
+            continue                                   # enough own markers: untouched
+        pool, added = set(own), False
+        anc = taxonomy_tree.parents(p[0], p[1])
+        for lv in reversed(h[:h.index(p[0])]):         # nearest ancestor first
+            ak = f'{lv}/{anc[lv]}'
+            if ak in marker_lookup:
+                pool |= set(marker_lookup[ak])
+                added = True
+                if len(pool & Q) >= mm:
+                    break
+        if len(pool & Q) < mm and 'None' in marker_lookup:   # finally the root
+            pool |= set(marker_lookup['None'])
+            added = True
+        out[k] = sorted(pool & Q) if added else list(marker_lookup.get(k, []))
+        if not (set(out[k]) & Q):
+            error = True
+    return None if error else out
+
+
+def _call_validate_or_none(**kw):
+    try:
+        return _quiet(M + 'validate_marker_lookup')(**kw)
+    except RuntimeError:
+        return None
+
+
+contract(
+    M + 'validate_marker_lookup#reference',
+    properties=['C08'], mode='bounded',
+    native=dict(enumerate=_enum_validate, gen=_gen_validate, call=_call_validate_or_none,
+                env=dict(reference_fallback=_reference_fallback),
+                bound="exhaustive: 8 tree shapes with <= 3 levels, genes {g0,g1,g2}, every list in "
+                      "{absent, [], [g0], [g1], [g0,g1], [g2]} for up to 4 consulted parents, every "
+                      "subset of the genes as query, min_markers in {1, 2}  (5968 cases)"),
+    params=dict(marker_lookup='Dict[Name,List[Name]]', query_gene_names='List[Name]',
+                taxonomy_tree='MCTree', log='Opt[MCLog]', min_markers='Int'),
+    returns='Opt[Dict[Name,List[Name]]]',
+    requires=VALID_TREE,
+    ensures=["result == reference_fallback(marker_lookup, query_gene_names, taxonomy_tree, min_markers)"],
+)
+
+
+def _expected_all(marker_lookup, names):
+    return sorted({names.index(g) for k in marker_lookup for g in marker_lookup[k]})
+
+
+contract(
+    M + 'write_query_markers_to_h5#all_markers',
+    properties=['C08', 'C07'], mode='bounded',
+    native=dict(gen=_gen_write, call=_call_write,
+                env=dict(written_top=_WT, expected_all=_expected_all),
+                bound="random: <= 7 reference genes, <= 4 groups"),
+    params=dict(marker_lookup='Dict[Name,List[Name]]', reference_gene_names='List[Name]',
+                query_gene_names='List[Name]', output_cache_path='Opaque'),
+    requires=["dupfree(reference_gene_names)", "dupfree(query_gene_names)",
+              "all(g in reference_gene_names and g in query_gene_names for k in marker_lookup for g in marker_lookup[k])"],
+    ensures=[
+        # the union of the marker columns of all groups, sorted (used to down-select the query genes)
+        "list(written_top['all_query_markers']) == expected_all(marker_lookup, query_gene_names)",
+        "list(written_top['all_reference_markers']) == expected_all(marker_lookup, reference_gene_names)",
+    ],
 )
